@@ -59,6 +59,8 @@ JudgeCrash(e) ==
                           ELSE IF e.point \in DOMAIN hist THEN hist[e.point] ELSE files)
       allowed == {cur.new} \cup (IF cur.overwrite THEN {cur.old} ELSE {})
   IN (IF e.id_res \in {"ok", "err"} THEN {} ELSE {"crash.retrieve.outcome-" \o e.id_res})
+     \* the torn prefix must really have been put in place by the harness (infrastructure, not a verdict)
+     \cup (IF e.torn >= 0 /\ "tornapplied" \in DOMAIN e /\ ~e.tornapplied THEN {"crash.model-mismatch"} ELSE {})
      \cup (IF e.id_res = "ok" /\ e.id_doc \notin allowed THEN {"crash.atomic"} ELSE {})
      \cup (IF e.hasother /\ (e.other_res # "ok" \/ e.other_doc # cur.other) THEN {"crash.other-key"} ELSE {})
      \* after any crash a complete store of another (shorter) document and its retrieval work, with nothing of the
